@@ -65,6 +65,8 @@ class Case:
         self.model = None             # parsed model output
         self.impl = None              # parsed dump
         self.impl_runs = {}           # run idx -> lines
+        self.impl_raw = None          # raw dump text
+        self.certs = None             # list of CERT lines (dicts)
         self.compile_error = None
 
 
@@ -132,6 +134,7 @@ def run_impl(cases, workdir, batch_size=6, profile="debug", compile_timeout=240,
                           timeout_ms=run_timeout_ms)
             for c in g:
                 dump = bb.dump(c.name)
+                c.impl_raw = dump
                 c.impl = parse_dump(dump) if dump is not None else None
                 for i in range(len(c.inputs)):
                     c.impl_runs[i] = runs.get((c.name, i), ["MISSING"])
@@ -283,3 +286,40 @@ def check_locs_independent(cps, lines):
                     if p[8] != want_pk:
                         probs.append("peek() = %s but the first unconsumed character is %s" % (p[8], want_pk))
     return probs
+
+
+def run_certificates(cases):
+    """Runs the proved-sound boolean checkers (ClosedChecker.dfa_closed_b, NfaSem.flags_sound_b, ...) on
+    the implementation's own dumped automata. Fills c.certs = list of dicts."""
+    todo = [c for c in cases if c.impl_raw]
+    if not todo:
+        return
+    shards = [[] for _ in range(min(NPROC, len(todo)))]
+    for i, c in enumerate(todo):
+        shards[i % len(shards)].append(c)
+
+    def work(shard):
+        parts = []
+        for c in shard:
+            body = "\n".join(l for l in c.impl_raw.split("\n") if not l.startswith("TOKENS") and not l.startswith("AST"))
+            parts.append("CHECKDUMP %s\n%s\nENDCHECK\n" % (c.name, body))
+        return run_lexmodel("".join(parts))
+    with ThreadPoolExecutor(len(shards)) as ex:
+        outs = list(ex.map(work, shards))
+    byname = {c.name: c for c in todo}
+    for out in outs:
+        cur = None
+        for ln in out.split("\n"):
+            if ln.startswith("CHECKED "):
+                cur = byname[ln.split()[1]]
+                cur.certs = []
+            elif ln.startswith("CERT ") and cur is not None:
+                p = ln.split()
+                d = {"kind": p[1]}
+                for kv in p[2:]:
+                    if "=" in kv:
+                        k, v = kv.split("=", 1)
+                        d[k] = v
+                    else:
+                        d.setdefault("msg", []).append(kv)
+                cur.certs.append(d)
